@@ -189,7 +189,7 @@ pub fn run(ctx: &Ctx) {
     cfg.w_elem_assign = 12;
     cfg.w_destructure = 6;
     cfg.sloppy = 1;
-    let n = ctx.n(8_000, 800_000);
+    let n = ctx.n(20_000, 800_000);
     let via = if ctx.tier == Tier::Quick { Via::Cli } else { Via::Fast };
     ctx.proptest_tapes("aliasing_random", n, 700, via, None, |t| {
         let (case, rr, prog, _) = crate::props::c01::build_case("C05", "random", t, &cfg, 0, ctx, DiagLevel::None)?;
